@@ -323,6 +323,7 @@ class Check:
             "the cabac, zstd and crc32fast crates are below the modelled level: executed by every replay, not modelled",
         ]
         self.findings = [f for f in load_findings() if f.get("property") == pid]
+        self.deferred = None      # a tool error that must not hide violations already found
 
     def add_model(self, r, what):
         self.cov["states"] += r["states"]
@@ -367,7 +368,14 @@ class Check:
         log("VIOLATION property=%s replay=%s" % (self.pid, path))
         log("  [%s] %s" % (signature, description[:300]))
 
+    def defer_tool_error(self, msg):
+        if self.deferred is None:
+            self.deferred = msg
+        log("[deferred tool error] " + msg[:400])
+
     def finish(self, level="model_checking", rule=""):
+        if self.deferred and not self.violations:
+            raise ToolError(self.deferred)
         cov = self.cov
         cov["rule"] = rule
         cov["violations_by_signature"] = {}
